@@ -178,7 +178,7 @@ func runUpload(t *testing.T, tape *simrt.Tape, env dst.Env) *simrt.Outcome {
 			size = int64(ps) * 4100 // explicit small parts on a larger file: the library must refuse (small) or stream (big)
 		}
 		f := file{seed: tape.Uint64(simrt.Wl), size: size}
-		cl := &upClient{tape: tape, f: f, ps: ps, flood: newFloodLog(), faults: tape.Coin(simrt.Cfg, 3, 4), fatalErr: tgerr.New(400, "FILE_PARTS_INVALID"), latency: tape.Coin(simrt.Cfg, 1, 2)}
+		cl := &upClient{tape: tape, f: f, ps: ps, flood: newFloodLog(), faults: tape.Coin(simrt.Cfg, 3, 4), fatalErr: genFatal(tape), latency: tape.Coin(simrt.Cfg, 1, 2)}
 		src := &srcReader{tape: tape, f: f, short: tape.Coin(simrt.Cfg, 1, 2)}
 		total := size
 		if !known {
@@ -219,7 +219,7 @@ func runUpload(t *testing.T, tape *simrt.Tape, env dst.Env) *simrt.Outcome {
 		}
 		if err != nil {
 			var re *tgerr.Error
-			if errors.As(err, &re) && re.Message == "FILE_PARTS_INVALID" {
+			if errors.As(err, &re) && re.Message == cl.fatalErr.(*tgerr.Error).Message {
 				fatal = true
 			}
 			tooMany := explicit && known && size <= smallLimit && n > partsLimit
